@@ -4,4 +4,6 @@ pub mod engines;
 pub mod fw;
 pub mod iso;
 pub mod par;
+pub mod sched;
+pub mod x3;
 pub mod x2;
